@@ -11,7 +11,7 @@ use serde_json::Value;
 
 use crate::engine::{Engine, RunCtx};
 use crate::prng::{Digest, Rng};
-use crate::spec::{self, Catalog, NodeSpec, TreeParams, ValSpec};
+use crate::spec::{self, Catalog, NodeSpec, RefT, TreeParams, ValSpec};
 
 pub const ALLOC_REQ_CEILING: usize = 64 << 20;
 pub const ALLOC_PEAK_CEILING: usize = 256 << 20;
@@ -698,6 +698,25 @@ fn length_fields(format: Format, file: &[u8]) -> Vec<(String, Vec<usize>)> {
                         }
                     }
                 }
+                // Plausible length prefixes of large values (>= 1 KiB, fitting in the
+                // chunk): the places where "allocate first, read later" goes wrong.
+                if (&c.name == b"PROP" || &c.name == b"SSTR") && c.end - c.payload >= 1028 {
+                    let mut cands: Vec<(u32, usize)> = Vec::new();
+                    let mut o = c.payload;
+                    while o + 4 <= c.end {
+                        let v = u32::from_le_bytes(file[o..o + 4].try_into().unwrap());
+                        if v >= 1024 && o + 4 + v as usize <= c.end {
+                            cands.push((v, o));
+                            // a real prefix is followed by its value: skip it
+                            o += 4 + v as usize;
+                        } else {
+                            o += 1;
+                        }
+                    }
+                    cands.sort_by(|a, b| b.cmp(a));
+                    let g = groups.entry("large-length-prefix".into()).or_default();
+                    g.extend(cands.into_iter().take(4).map(|(_, o)| o));
+                }
                 if &c.name == b"SSTR" {
                     let g = groups.entry("SSTR:entries".into()).or_default();
                     let mut o = c.payload + 8;
@@ -873,6 +892,14 @@ fn apply_xml_edit(file: &mut Vec<u8>, op: u8, which: u32, arg: u32) -> bool {
         return false;
     }
     let mut k = opens[which as usize % opens.len()];
+    if op % 14 == 12 && (arg >> 20) & 1 == 1 {
+        // Duplicating under another type is aimed at the elements whose value is
+        // resolved in a second pass (referents, shared strings) half of the time.
+        let deferred: Vec<usize> = opens.iter().copied().filter(|&i| tags[i].name == "Ref" || tags[i].name == "SharedString").collect();
+        if !deferred.is_empty() {
+            k = deferred[which as usize % deferred.len()];
+        }
+    }
     if op % 14 == 3 {
         // Text replacement is aimed at leaf elements (the ones that carry a value).
         let leaves: Vec<usize> = opens
@@ -973,7 +1000,14 @@ fn apply_xml_edit(file: &mut Vec<u8>, op: u8, which: u32, arg: u32) -> bool {
             // another type tag and, half of the time, another text.
             let end = close.map(|c| tags[c].end).unwrap_or(t.end);
             let mut copy = file[t.start..end].to_vec();
-            let new = XML_NAMES[arg as usize % XML_NAMES.len()];
+            // For a referent or shared string the second element is given a type that
+            // takes (almost) any text, so that the document still decodes.
+            const TAKES_TEXT: &[&str] = &["string", "ProtectedString", "Content", "Ref", "SharedString", "BinaryString"];
+            let new = if (arg >> 20) & 1 == 1 && (t.name == "Ref" || t.name == "SharedString") {
+                TAKES_TEXT[(arg as usize >> 8) % TAKES_TEXT.len()]
+            } else {
+                XML_NAMES[arg as usize % XML_NAMES.len()]
+            };
             if let Some(c) = close {
                 if c != k {
                     let ct = &tags[c];
@@ -1407,7 +1441,13 @@ impl IoSim {
                 if groups.is_empty() {
                     return;
                 }
-                let (gname, fields) = &groups[*which as usize % groups.len()];
+                // One time in three a file that has large values gets the edit there.
+                let large = groups.iter().position(|(n, _)| n == "large-length-prefix");
+                let gi = match large {
+                    Some(i) if (*which as usize / 31) % 3 == 0 => i,
+                    _ => *which as usize % groups.len(),
+                };
+                let (gname, fields) = &groups[gi];
                 let off = fields[(*which as usize / 7919) % fields.len()];
                 ctx.count(&format!("len-edit-target:{}", gname));
                 if off + 4 > file.len() {
@@ -2101,7 +2141,7 @@ impl Engine for IoSim {
 
     fn scripted(&self, _property: &str, thorough: bool) -> u64 {
         let _ = thorough;
-        14
+        98
     }
 
     fn generate(&self, run_seed: u64, index: u64, _property: &str, thorough: bool) -> Value {
@@ -2174,6 +2214,62 @@ impl Engine for IoSim {
                         },
                     },
                     scenario: Scenario::Delivery { plan: ReadPlan { mode: 2, intr_permille: 30, seed: index } },
+                })
+            }
+            // A 100 KB string / byte string / shared string in an uncompressed file, its
+            // length prefix edited in each of the twelve ways.
+            14..=49 => {
+                let k = index - 14;
+                let how = (k % 12) as u8;
+                let mut rr = Rng::new(index / 12);
+                let v = match k / 12 {
+                    0 => ValSpec::Str("s".repeat(100_000)),
+                    1 => ValSpec::Bytes(rr.bytes(100_000)),
+                    _ => ValSpec::Shared(rr.bytes(100_000)),
+                };
+                Some(IoTrace {
+                    format: Format::BinNone,
+                    workload: Workload::Dom {
+                        tree: NodeSpec { class: "Folder".into(), name: "big".into(), props: vec![("VerifLargeValue".into(), v)], children: vec![] },
+                    },
+                    scenario: Scenario::Damage { edits: vec![Edit::LenEdit { which: 0, how }], plan: benign.clone() },
+                })
+            }
+            // An instance with a known Ref property (pointing at a sibling) and a known
+            // shared-string property: each of the two elements duplicated under each
+            // type that takes any text, with and without another text, in two reader modes.
+            50..=97 => {
+                let k = (index - 50) as u32;
+                let ty = k % 6;
+                let text = (k / 6) % 2;
+                let which = (k / 12) % 2;
+                let format = if k / 24 == 0 { Format::Xml } else { Format::XmlUnknown };
+                let arg = (1u32 << 20) | (ty << 8) | (1 - text);
+                Some(IoTrace {
+                    format,
+                    workload: Workload::Dom {
+                        tree: NodeSpec {
+                            class: "Model".into(),
+                            name: "m".into(),
+                            props: vec![("PrimaryPart".into(), ValSpec::Ref(RefT::Node(1)))],
+                            children: vec![
+                                NodeSpec { class: "Part".into(), name: "p".into(), props: vec![], children: vec![] },
+                                NodeSpec {
+                                    class: "MeshPart".into(),
+                                    name: "mp".into(),
+                                    props: vec![("PhysicalConfigData".into(), ValSpec::Shared(b"rbxsim shared".to_vec()))],
+                                    children: vec![],
+                                },
+                                NodeSpec {
+                                    class: "ObjectValue".into(),
+                                    name: "ov".into(),
+                                    props: vec![("Value".into(), ValSpec::Ref(RefT::Node(0)))],
+                                    children: vec![],
+                                },
+                            ],
+                        },
+                    },
+                    scenario: Scenario::Damage { edits: vec![Edit::Xml { op: 12, which, arg }], plan: benign.clone() },
                 })
             }
             _ => None,
